@@ -369,23 +369,25 @@ func c31CheckSample(s *media.Sample, k int, pushed map[string]c31Pushed, emitted
 	}
 	// once + order, against every earlier sample
 	prevIdx := len(*emitted) - 1
-	suffixOfPrev := false
-	if prevIdx >= 0 {
-		a := (*emitted)[prevIdx]
-		// compared by stream index: a duplicate may have replaced a consumed packet in its slot meanwhile
-		suffixOfPrev = a.aepoch == e.aepoch && len(e.gs) < len(a.gs) &&
-			fmt.Sprint(a.gs[len(a.gs)-len(e.gs):]) == fmt.Sprint(e.gs)
+	// e is made of the last packets of an earlier sample (compared by stream index: a duplicate
+	// may have replaced a consumed packet in its slot meanwhile)
+	suffixOf := func(a c31Emitted) bool {
+		return len(e.gs) < len(a.gs) && fmt.Sprint(a.gs[len(a.gs)-len(e.gs):]) == fmt.Sprint(e.gs)
+	}
+	suffixOfEarlier := false
+	if j, dup := seenG[e.gs[0]]; dup {
+		suffixOfEarlier = suffixOf((*emitted)[j])
 	}
 	for _, g := range e.gs {
 		if j, dup := seenG[g]; dup {
 			a := (*emitted)[j]
 			switch {
+			case suffixOf(a):
+				failKnown("consumed-packets-rebuilt-after-active-drained",
+					fmt.Sprintf("op %d: sample %v is a suffix of the earlier sample %v: packets already consumed were built again", k, e.gs, a.gs))
 			case a.aepoch != e.aepoch:
 				failKnown("stale-packet-accepted-after-buffer-drained",
 					fmt.Sprintf("op %d: stream packet %d emitted again (samples %v and %v); its copy was pushed after the buffer or the active window had drained", k, g, a.gs, e.gs))
-			case suffixOfPrev:
-				failKnown("consumed-packets-rebuilt-after-active-drained",
-					fmt.Sprintf("op %d: sample %v is a suffix of the previous sample %v: packets already consumed were built again", k, e.gs, (*emitted)[prevIdx].gs))
 			default:
 				failNew("packet-in-two-samples", fmt.Sprintf("op %d: stream packet %d in samples %v and %v", k, g, a.gs, e.gs))
 			}
@@ -396,12 +398,12 @@ func c31CheckSample(s *media.Sample, k int, pushed map[string]c31Pushed, emitted
 		a := (*emitted)[prevIdx]
 		if int16(e.first-a.last) <= 0 {
 			switch {
+			case suffixOfEarlier:
+				failKnown("consumed-packets-rebuilt-after-active-drained",
+					fmt.Sprintf("op %d: sample %v repeats the end of an earlier sample and comes after %v", k, e.gs, a.gs))
 			case a.aepoch != e.aepoch:
 				failKnown("stale-packet-accepted-after-buffer-drained",
 					fmt.Sprintf("op %d: sample seq %d..%d emitted after sample seq %d..%d; it was pushed after the buffer or the active window had drained", k, e.first, e.last, a.first, a.last))
-			case suffixOfPrev:
-				failKnown("consumed-packets-rebuilt-after-active-drained",
-					fmt.Sprintf("op %d: sample %v is a suffix of the previous sample %v", k, e.gs, a.gs))
 			default:
 				failNew("samples-out-of-sequence-order", fmt.Sprintf("op %d: sample seq %d..%d emitted after sample seq %d..%d", k, e.first, e.last, a.first, a.last))
 			}
